@@ -86,6 +86,7 @@ class Runner:
         self.stats = {}
         self.tol = TOL  # becomes TOL_TRUNC once a displacement / squeezing truncated the space
         self.route_mismatches = []
+        self.diverged = False
 
     # ---- spec helpers -------------------------------------------------------------------
     def spec_get(self):
@@ -163,7 +164,10 @@ class Runner:
         try:
             sids, dims, rho = joint(self.w)
         except Exception as ex:
-            self.findings.append(Finding(prop, f"cannot read the {what} from the object graph: {type(ex).__name__}: {ex}", i))
+            # the indices do not lead to the stored states: that is a bookkeeping (C13) failure
+            self.findings.append(Finding("C13", f"cannot read the {what} from the object graph (public indices do not name the storage places): {type(ex).__name__}: {ex}", i))
+            for m in check_bookkeeping(self.w):
+                self.findings.append(Finding("C13", m, i))
             return False
         ids, sdims, srho, tr, pur = self.spec_get()
         if sids != ids:
@@ -185,10 +189,15 @@ class Runner:
         self.vtol = 1e-5
 
     def check_invariants(self, i):
-        for m in check_valid_states(self.w, getattr(self, "vtol", 1e-7)):
-            self.findings.append(Finding("C07", m, i))
-        for m in check_bookkeeping(self.w):
+        bk = check_bookkeeping(self.w)
+        for m in bk:
             self.findings.append(Finding("C13", m, i))
+        try:
+            for m in check_valid_states(self.w, getattr(self, "vtol", 1e-7)):
+                self.findings.append(Finding("C07", m, i))
+        except Exception as ex:
+            if not bk:
+                self.findings.append(Finding("C13", f"stored states cannot be located through the public indices: {type(ex).__name__}: {ex}", i))
 
     def frame_check(self, i, before, touched_sids, prop="C20"):
         """blocks that contain none of the addressed subsystems must be unchanged"""
@@ -419,7 +428,7 @@ class Runner:
                 self.step(i, st)
             except LeanError as ex:
                 self.findings.append(Finding("HARNESS", f"spec driver rejected the step: {ex}", i))
-            if len(self.findings) > n0:
+            if len(self.findings) > n0 or self.diverged:
                 break
         return self.findings
 
@@ -437,7 +446,7 @@ class Runner:
         n0 = len(self.findings)
         self._rejected = False
         getattr(self, "do_" + kind)(i, st, before)
-        if len(self.findings) == n0 and not self._rejected:
+        if len(self.findings) == n0 and not self._rejected and not self.diverged:
             self.route_check(i, st, lay_before, calls)
 
     # single- and multi-subsystem operations ------------------------------------------------
@@ -447,8 +456,8 @@ class Runner:
         gate = st["gate"]
         multi = len(targets) > 1 or gate in COMP_GATES
         prop = "C03" if multi else "C01"
-        if gate == "BS":
-            prop = st.get("prop", "C03")
+        if self.prog.get("focus") == "C11" and gate in ("BS", "PhaseShift"):
+            prop = "C11"
         if any(getattr(t, "measured", False) for t in targets):
             return self.expect_reject(i, st, before, lambda: self.call_op(st, targets), "C05", "operation on a destroyed subsystem")
         dims_before = {w.sid(s): dims_of(s) for s in w.live()}
@@ -825,12 +834,35 @@ class Runner:
         des = bool(st.get("destructive", True))
         if any(getattr(t, "measured", False) for t in targets):
             return self.expect_reject(i, st, before, lambda: self.call_measure(st, targets, sep, des), "C05", "measurement of a destroyed subsystem")
+        values_before = {w.sid(s): (s.state if isinstance(s.state, (int, np.integer)) else None) for s in w.subs if isinstance(s, Fock)}
         with Spy(st.get("force")) as spy:
             try:
                 out = self.call_measure(st, targets, sep, des)
                 err = None
             except Exception as ex:
                 err = ex
+        if st.get("known_cell"):
+            # a measured subsystem sits in a combined envelope (known findings K-C04/K-C05): states
+            # and probabilities are not judged there, only which subsystems were measured / reported
+            self.diverged = True
+            if err is not None:
+                return
+            expected = set(st["targets"])
+            if not sep:
+                for t in targets:
+                    if isinstance(t, (Fock, Polarization)):
+                        expected.add(w.sid(t.envelope.fock)); expected.add(w.sid(t.envelope.polarization))
+            got = [w.sid(k) for k in out]
+            if len(set(got)) != len(got):
+                self.findings.append(Finding("C18", f"outcome dictionary holds two entries for one subsystem: {got}", i))
+            missing = expected - set(got)
+            for m_ in sorted(missing):
+                twin = [x for x in expected if x != m_ and isinstance(w.subs[m_], Fock) and isinstance(w.subs[x], Fock)]
+                prop_ = "C18" if twin else "C05"
+                self.findings.append(Finding(prop_, f"measure{st['targets']} via ce (sep={sep}, destructive={des}): subsystem {m_} was specified to be measured but is not in the outcome dictionary {sorted(got)}" + (" (another measured Fock holds an equal value)" if twin else ""), i))
+            for x_ in sorted(set(got) - expected):
+                self.findings.append(Finding("C05", f"measure{st['targets']}: outcome reported for subsystem {x_} which was not to be measured", i))
+            return
         if err is not None:
             self.findings.append(Finding("C05", f"measure{st['targets']} via {en} (sep={sep}, destructive={des}) raised {type(err).__name__}: {str(err)[:160]}", i))
             return
@@ -852,7 +884,9 @@ class Runner:
                 self.findings.append(Finding("C18", f"outcome dictionary holds two entries for subsystem {sid}", i))
             got[sid] = int(v)
         if set(got) != expected:
-            self.findings.append(Finding("C05", f"measure{st['targets']} via {en} (sep={sep}): outcomes reported for {sorted(got)}, specified {sorted(expected)}", i))
+            missing = expected - set(got)
+            fock_twins = [m_ for m_ in missing if isinstance(w.subs[m_], Fock) and any(isinstance(w.subs[x], Fock) and x != m_ for x in expected)]
+            self.findings.append(Finding("C18" if fock_twins else "C05", f"measure{st['targets']} via {en} (sep={sep}): outcomes reported for {sorted(got)}, specified {sorted(expected)}" + (" (a Fock holding the same value as another measured Fock was skipped)" if fock_twins else ""), i))
             return
         # Born rule: match the draws to subsystems (order is the implementation's choice)
         ok = self.match_draws(i, spy.draws, got, des)
